@@ -49,6 +49,11 @@ pub open spec fn w_mathml_tip(n: ExpandedName) -> bool {
 pub open spec fn w_svg_ip(n: ExpandedName) -> bool {
     n.ns == ns!(svg) && (n.local == local_name!("foreignObject") || n.local == local_name!("desc") || n.local == local_name!("title"))
 }
+/// the two integration-point lists above are what the repository's own predicates (tag_sets.rs, module `ts`) say (PROVED)
+pub proof fn lemma_integration_points()
+    ensures forall|p: ExpandedName| #[trigger] ts::mathml_text_integration_point(p) == w_mathml_tip(p),
+            forall|p: ExpandedName| #[trigger] ts::svg_html_integration_point(p) == w_svg_ip(p),
+{}
 /// "a start tag whose tag name is one of: b, big, blockquote, body, br, center, code, dd, div, dl, dt, em, embed, h1 .. h6,
 /// head, hr, i, img, li, listing, menu, meta, nobr, ol, p, pre, ruby, s, small, span, strong, strike, sub, sup, table, tt, u,
 /// ul, var"
